@@ -96,14 +96,18 @@ SIM_SCENARIO(scen_c10, "c10", "C10", 3000000, 8000) {
     hx::Desc d;
     g_live_vals = 0;
     int nthreads = (int)sim::draw_range(2, 4, "threads");
-    g_hash_kind = (int)sim::draw(4, "hash");
-    g_shift = (int)sim::draw_range(1, 10, "shift");
-    int nkeys = (int)sim::draw_range(1, 6, "nkeys");
+    // theme "erase in a chain" (1 run in 5): every key is present at the start and shares its bucket chain with the others
+    // (constant or low-bit-colliding hash), the programs are mostly erases: removal of non-head nodes, several threads
+    // unlinking neighbours / the same node, bucket-lock upgrades that are contended
+    bool erase_theme = sim::draw(5, "erase_theme") == 0;
+    g_hash_kind = erase_theme ? 1 + (int)sim::draw(2, "hash") : (int)sim::draw(4, "hash");
+    g_shift = erase_theme ? (int)sim::draw_range(6, 10, "shift") : (int)sim::draw_range(1, 10, "shift");
+    int nkeys = erase_theme ? (int)sim::draw_range(3, 6, "nkeys") : (int)sim::draw_range(1, 6, "nkeys");
     static const int prefills[] = {0, 0, 1, 2, 3, 6, 7, 14, 15, 30, 31, 62, 126, 250, 254, 255, 256, 510};
     int prefill = sim::draw_of(prefills, "prefill");
     int nbuckets = (int)sim::draw(3, "nbuckets");
     static const char* const hn[] = {"identity", "constant", "lowbits-collide", "mix"};
-    d.add(hx::fmt("concurrent_hash_map hash=%s shift=%d keys=%d prefill=%d initial_buckets=%d", hn[g_hash_kind], g_shift, nkeys, prefill, nbuckets));
+    d.add(hx::fmt("concurrent_hash_map hash=%s shift=%d keys=%d prefill=%d initial_buckets=%d%s", hn[g_hash_kind], g_shift, nkeys, prefill, nbuckets, erase_theme ? " theme=erase-in-chain (all keys present at start)" : ""));
     std::vector<std::vector<Plan>> plan(nthreads);
     int total = 0, bulk_budget = 2, bulk_next = 5000;
     for (int t = 0; t < nthreads; ++t) {
@@ -111,6 +115,7 @@ SIM_SCENARIO(scen_c10, "c10", "C10", 3000000, 8000) {
         std::string s = hx::fmt("T%d:", t);
         for (int i = 0; i < nops && total < 22; ++i, ++total) {
             OK k = (OK)sim::draw(NOPS, "op");
+            if (erase_theme) { static const OK eo[] = {ERASE, ERASE, ERASE, ERASE, FIND_CACC, FIND_CACC, ERASE_ACC, INS, COUNT, ERASE}; k = eo[sim::draw(10, "eop")]; }
             int key = (int)sim::draw((uint64_t)nkeys, "key");
             int hold = (int)sim::draw(4, "hold");
             // bulk insert of fresh keys (outside the checked histories): lets the table grow by one or two steps
@@ -129,6 +134,11 @@ SIM_SCENARIO(scen_c10, "c10", "C10", 3000000, 8000) {
     for (int i = 0; i < prefill; ++i) m->insert(std::make_pair(1000 + i, Val(500000 + i)));
 
     std::vector<std::vector<Ev>> hist(nkeys);
+    if (erase_theme) for (int k = 0; k < nkeys; ++k) {      // sequential inserts, part of each key's history
+        Ev e; e.op.k = INS; e.op.tag = 900 + (uint64_t)k; e.inv = sim::step(); sim::upoint();
+        e.op.ok = m->insert(std::make_pair(k, Val(e.op.tag)));
+        sim::upoint(); e.res = sim::step(); hist[k].push_back(e);
+    }
     std::vector<int> bulk_keys;
     std::vector<std::function<void()>> fns;
     for (int t = 0; t < nthreads; ++t) {
